@@ -6,6 +6,7 @@ CONSTANTS
   MaxSets = 0
   PointerReceiver = FALSE
   CacheDerived = FALSE
+  GlobalLock = FALSE
 SPECIFICATION Spec
 INVARIANTS NoConflictingAccess SharedDerivedNeverWritten ResultIsFunctionOfFields
 PROPERTIES CallsLeaveFieldsUnchanged
